@@ -27,6 +27,8 @@ hazard_pointer<Traits>::guard_ptr<T, MarkedPtr>::guard_ptr(const MarkedPtr& p) :
   if (this->ptr.get() != nullptr) {
     hp = local_thread_data.alloc_hazard_pointer();
     hp->set_object(this->ptr.get());
+    // this constructor is also used to copy a guard_ptr - see note_guard_copy
+    local_thread_data.note_guard_copy();
   }
 }
 
@@ -53,6 +55,7 @@ auto hazard_pointer<Traits>::guard_ptr<T, MarkedPtr>::operator=(const guard_ptr&
   }
   this->ptr = p.ptr;
   hp->set_object(this->ptr.get());
+  local_thread_data.note_guard_copy();
   return *this;
 }
 
@@ -194,6 +197,12 @@ namespace detail {
     };
 
     using hint = hazard_pointer*;
+
+    // Incremented whenever the owning thread has copied a guard_ptr, i.e., has published an object it already
+    // protects in a second hazard pointer. A scan that does not see the object in the new hazard pointer (because
+    // it has already read it) and not in the old one either (because the old guard_ptr has been released before
+    // the scan reaches it) sees this counter change and reads the hazard pointers of the thread once more.
+    std::atomic<std::size_t> guard_copies{0};
 
     void initialize(hint& hint) {
       Strategy::number_of_active_hps.fetch_add(self().number_of_hps(), std::memory_order_relaxed);
@@ -379,6 +388,9 @@ struct alignas(64) hazard_pointer<Traits>::thread_data : aligned_object<thread_d
 
   void release_hazard_pointer(HP& hp) { control_block->release_hazard_pointer(hp, hint); }
 
+  // Has to be called after the copy of a guard_ptr has been published and before the original can be released.
+  void note_guard_copy() { control_block->guard_copies.fetch_add(1, std::memory_order_release); }
+
   std::size_t add_retired_node(detail::deletable_object* p) {
     p->next = retire_list;
     retire_list = p;
@@ -400,7 +412,15 @@ struct alignas(64) hazard_pointer<Traits>::thread_data : aligned_object<thread_d
         // but have to perform an acquire-load here to avoid false positives.
         constexpr auto memory_order = TSAN_MEMORY_ORDER(std::memory_order_acquire, std::memory_order_relaxed);
         if (entry.is_active(memory_order)) {
-          entry.gather_protected_pointers(protected_pointers);
+          // A guard_ptr copy moves the protection of an object from one hazard pointer to another one; if such a
+          // copy has been completed while we were reading the hazard pointers of this thread we could have missed
+          // the object in both of them, so we have to read them again.
+          std::size_t copies;
+          do {
+            copies = entry.guard_copies.load(std::memory_order_acquire);
+            entry.gather_protected_pointers(protected_pointers);
+            XENIUM_THREAD_FENCE(std::memory_order_acquire);
+          } while (entry.guard_copies.load(std::memory_order_relaxed) != copies);
         }
       });
 
